@@ -192,11 +192,18 @@ def run(ctx):
                         den = defs[-1].value if defs else den
                     if not (isinstance(den, ast.Call) and isinstance(den.func, ast.Name) and den.func.id == "len" and den.args):
                         continue  # some other division
-                    coll = norm(den.args[0])
-                    loops = [l for l in ast.walk(b) if isinstance(l, (ast.For, ast.comprehension)) and (coll == norm(l.iter) or norm(l.iter).startswith(coll + "."))]
+                    carg = den.args[0]
+                    if isinstance(carg, ast.NamedExpr):
+                        carg = carg.target  # len((snapshots := H.subhypergraph()))
+                    coll = norm(carg)
+                    # the snapshot collection is what some loop ranges over - directly, through .values() / .items(), or handed
+                    # to map() / zip() / enumerate()
+                    loops = [l for l in ast.walk(b) if isinstance(l, (ast.For, ast.comprehension)) and (coll == norm(l.iter) or norm(l.iter).startswith(coll + ".") or any(isinstance(x, (ast.Name, ast.Attribute)) and norm(x) == coll for x in ast.walk(l.iter)))]
                     good = bool(loops)
                     ok_any = ok_any or good
-                    res.check(good, "D-AVG", f, norm(dv), "divisor", "the sum over snapshots is not divided by the number of snapshots that were iterated", loc(fi, dv))
+                    # positively another collection: a plain name / attribute that no loop of the function ranges over
+                    plain = isinstance(carg, (ast.Name, ast.Attribute)) or (isinstance(carg, ast.Call) and isinstance(carg.func, ast.Attribute) and carg.func.attr in ("get_nodes", "get_edges", "num_nodes", "num_edges", "get_times", "keys", "values"))
+                    res.add("D-AVG", f, norm(dv), "divisor", "ok" if good else ("violation" if plain else "unknown"), "" if good else "the sum over snapshots is not divided by the number of snapshots that were iterated", loc(fi, dv))
             if not ok_any:
                 res.unknown("D-AVG", f, "res[k] / T", "averaged", "no division by the number of iterated snapshots was recognised", loc(v.fi, v.fi.node))
             else:
